@@ -55,6 +55,27 @@ func (c17) Generate(tier string, yield func(*engine.Case) bool) {
 			}
 		}
 	}
+	// objects whose field names run into one another when written without a separator
+	{
+		N, S := gen.Num, gen.Str
+		F := gen.F
+		names := []*gen.Ty{
+			gen.Obj(F("ab", N), F("c", S)), gen.Obj(F("a", N), F("bc", S)), gen.Obj(F("c", S), F("ab", N)), gen.Obj(F("bc", S), F("a", N)),
+			gen.Obj(F("xy", N)), gen.Obj(F("x", N), F("y", N)), gen.Obj(F("y", N), F("x", N)), gen.Obj(F("a", N), F("b", N), F("c", N)), gen.Obj(F("abc", N)),
+			gen.Obj(F("a", N), F("b", gen.Var("a"))), gen.Obj(F("ab", gen.Var("a"))), gen.Obj(F("", N), F("a", N)), gen.Obj(F("a", N), F("", N)),
+		}
+		var all []*gen.Ty
+		for _, t := range names {
+			all = append(all, t, gen.List(t), gen.Map(S, t))
+		}
+		for _, x := range all {
+			for _, y := range all {
+				if !emit("pair-names", x, y, nil) {
+					return
+				}
+			}
+		}
+	}
 	d2 := gen.Depth2Reduced()
 	for _, x := range d2 {
 		for _, y := range d2 {
